@@ -57,6 +57,9 @@ type Request struct {
 	Expect      []ExpRow          `json:"expect,omitempty"`
 	Streams     int               `json:"streams"`
 	MultiChunk  bool              `json:"multi_chunk"`
+	// SlowUploadMs > 0: the client sends the body in 512 KiB pieces with that pause between them (a slow uplink),
+	// so that a streaming parser hands its portions over at different times
+	SlowUploadMs int `json:"slow_upload_ms,omitempty"`
 }
 
 var LogProtos = []string{"loki-json-values", "loki-json-entries", "loki-proto", "remote-write", "influx-log", "influx-metric", "datadog-logs", "datadog-metrics", "otlp-logs"}
@@ -96,6 +99,7 @@ type LogOpts struct {
 	Hostile    bool
 	BaseNs     int64
 	Big        bool // cross the 1000-points / 1 MiB chunk thresholds
+	Huge       bool // every stream is more than 1 MiB: the parser hands the body over in one portion per stream
 	LabelPool  []string
 }
 
@@ -150,6 +154,9 @@ func NewLogCase(r *rand.Rand, o LogOpts) LogCase {
 		if o.Big && s == 0 {
 			ne = 1100 + r.Intn(1500)
 		}
+		if o.Huge {
+			ne = 1900 + r.Intn(300) // every stream is a portion of its own (the parsers cut between streams)
+		}
 		for e := 0; e < ne; e++ {
 			en := Entry{}
 			// timestamps: unique per (stream, entry) at the protocol's granularity, some shared across streams
@@ -173,7 +180,7 @@ func NewLogCase(r *rand.Rand, o LogOpts) LogCase {
 				if o.Hostile && cp.hostileLines {
 					en.Line += HostileStr(r, 5)
 				}
-				if o.Big && s == 0 {
+				if o.Big && s == 0 || o.Huge {
 					en.Line += strings.Repeat("p", 400+r.Intn(400))
 				}
 			}
